@@ -103,9 +103,93 @@ fn part1(spec: &RuleSpec, level: u8) -> Stats {
             }
         }
     }
+    // every iteration order of the rule's own `identifiers` map (a std HashMap the optimiser driver
+    // walks): the optimised rule must print and decide the same whichever order the map yields
+    let n_ids = rule.detection.identifiers.len();
+    if (2..=4).contains(&n_ids) {
+        let perms = crate::c17::permutations(n_ids);
+        for sw in [0b1111u8, 0b1110, 0b1010, 0b0010, 0b0100, 0b1000] {
+            let mut first: Option<(String, Vec<i8>, Vec<usize>)> = None;
+            for p in &perms {
+                let r = match eng::with_identifier_order(&rule, p) {
+                    Some(r) => r,
+                    None => {
+                        st.count("identifier_orders_not_realised", 1);
+                        continue;
+                    }
+                };
+                let o = match eng::optimise_with(&r, sw, &[]) {
+                    Ok((o, _)) => o,
+                    Err(_) => continue,
+                };
+                let c = eng::canon(&o);
+                let v: Vec<i8> = docs.iter().map(|d| eng::val3(&o, d).unwrap_or(2)).collect();
+                st.states += 1;
+                st.traces += 1;
+                st.transitions += 1 + docs.len() as u64;
+                st.evaluations += 1;
+                st.count("identifier_map_orders_explored", 1);
+                match &first {
+                    None => first = Some((c, v, p.clone())),
+                    Some((c0, v0, p0)) => {
+                        if *c0 != c || *v0 != v {
+                            let i = (0..docs.len()).find(|i| v0[*i] != v[*i]);
+                            st.push_violation(Violation {
+                                signature: format!("optimised-rule-depends-on-identifier-map-order:{}", if *c0 != c { "prints-differently" } else { "decides-differently" }),
+                                witness: format!(
+                                    "optimise({}) with the identifiers iterating as {:?} gives {} ; as {:?} gives {} {}; rule {}",
+                                    eng::sw_name(sw), p0, c0, p, c,
+                                    i.map(|i| format!("(on {}: {} vs {}) ", docs[i].show(), eng::v3name(v0[i]), eng::v3name(v[i]))).unwrap_or_default(),
+                                    one_line(&yaml)
+                                ),
+                                replay: json!({"kind":"identifier-order","rule_yaml":yaml,"sw_bits":sw,"order_a":p0,"order_b":p,"document":i.map(|i| crate::report::mobj_to_json(&docs[i]))}),
+                            });
+                        }
+                    }
+                }
+            }
+        }
+    }
     st.nontrivial += 1;
     st
 }
+
+/// rules whose identifiers differ only in something a careless equality could ignore (the case
+/// flag, the cast, the pattern kind): any sharing or caching between identifiers shows up as an
+/// order dependence
+pub fn twin_specs() -> Vec<RuleSpec> {
+    use crate::gen::{e, int, list, map, st, Body};
+    let pairs: Vec<(Entry2, Entry2)> = vec![
+        (e("f", list(vec![st("a*"), st("*b")])), e("f", list(vec![st("ia*"), st("i*b")]))),
+        (e("f", list(vec![st("ab"), st("b")])), e("f", list(vec![st("iab"), st("ib")]))),
+        (e("f", st("?a+")), e("f", st("i?a+"))),
+        (e("f", list(vec![st("?^a"), st("?b$")])), e("f", list(vec![st("i?^a"), st("i?b$")]))),
+        (e("f", st("ab")), e("f", st("iab"))),
+        (e("f", st("1")), e("f", int(1))),
+        (e("f", st("1")), e("str(f)", st("1"))),
+        (e("n", map(vec![e("x", st("a*"))])), e("n", map(vec![e("x", st("ia*"))]))),
+        (e("all(f)", list(vec![st("*a*"), st("*b*")])), e("all(f)", list(vec![st("i*a*"), st("i*b*")]))),
+    ];
+    let mut out = vec![];
+    for (a, b) in pairs {
+        for cond in ["A or B", "A and not B", "B and not A", "not A or not B"] {
+            out.push(RuleSpec {
+                idents: vec![("A".into(), Body::Map(vec![a.clone()])), ("B".into(), Body::Map(vec![b.clone()]))],
+                cond: cond.into(),
+            });
+        }
+        out.push(RuleSpec {
+            idents: vec![
+                ("A".into(), Body::Map(vec![a.clone()])),
+                ("B".into(), Body::Map(vec![b.clone()])),
+                ("C".into(), Body::Map(vec![e("g", st("x"))])),
+            ],
+            cond: "(A or C) and not B".into(),
+        });
+    }
+    out
+}
+type Entry2 = crate::gen::Entry;
 
 // ---------------------------------------------------------------------------------------------
 // part 2: histories - explicit-state search over document sequences on one shared rule
@@ -704,6 +788,8 @@ pub fn run(tier: Tier) -> i32 {
     } else {
         gen::universe_quick()
     };
+    let mut specs = specs;
+    specs.extend(twin_specs());
     let parts: Vec<Stats> = specs.par_iter().map(|s| part1(s, level.min(1))).collect();
     let mut p1 = Stats::default();
     for p in parts {
